@@ -5,6 +5,7 @@ import (
 	"go/token"
 	"go/types"
 	"math/big"
+	"strconv"
 	"strings"
 
 	"golang.org/x/tools/go/packages"
@@ -403,6 +404,23 @@ func (v *FnV) spIdent(st *State, name string, sc *Scope) Value {
 			sfail("ncalls: the function under verification has no `log` directive")
 		}
 		return Value{T: tInt, S: st.ghost["lgN"]}
+	}
+	if !sc.callee {
+		if val, ok := v.ghostVars[name]; ok {
+			return val
+		}
+		if strings.HasPrefix(name, "iter") {
+			// iterK: the number of elements already processed by range loop K
+			if k, err := strconv.Atoi(name[4:]); err == nil {
+				want := fmt.Sprintf("range!%d", k)
+				for obj, val := range st.env {
+					if obj.Name() == want {
+						return val
+					}
+				}
+				sfail("iter%d: no range loop %d is active here", k, k)
+			}
+		}
 	}
 	if sc.pkg != nil {
 		var obj types.Object
